@@ -25,7 +25,8 @@ RULE = ("Streams of 1..8 well-formed frames of every kind (both generations) are
 ASSUMPTIONS = ["SimTransport.peer_data == one TCP segment arriving (data_received call)",
                "baseline cross-checked against refproto's frame count/order"]
 REQUIRED_OBS = ["sends_between_segments", "segmentations_ok", "cuts_inside_header", "cuts_inside_crc", "byte_at_a_time",
-                "slow_subscriber_runs", "second_client_receiving_in_the_gaps"]
+                "slow_subscriber_runs", "second_client_receiving_in_the_gaps",
+                "subscribed_while_a_frame_was_incomplete"]
 SOAK = True   # also judged by the whole-run monitors of the soak sessions (vf/soak.py)
 BUDGET = {"quick": 100, "thorough": 1500}
 
@@ -75,12 +76,15 @@ def streams(gen):
 _BASE = {}
 
 
-def deliver(gen, stream, cuts, gap, debug=False, delays=None, send_in_gap=False, duo=False):
+def deliver(gen, stream, cuts, gap, debug=False, delays=None, send_in_gap=False, duo=False,
+            late_sub=False):
     """Deliver `stream` cut at `cuts`; returns (deliveries, closed, errors, status).
     send_in_gap: the application submits a command after every segment (sending and receiving
     go on at the same time on one connection).
     duo: a second client of the same generation lives in the process, connected to another
-    console, and receives a whole frame of its own after every segment."""
+    console, and receives a whole frame of its own after every segment.
+    late_sub: the socket has no message subscriber until the first segment has been dealt with;
+    the application subscribes in the gap behind it (gap must be "quiesce")."""
     import pyairtouch.comms.socket as psock
     from .. import sockscript as S
     sent = []
@@ -94,6 +98,8 @@ def deliver(gen, stream, cuts, gap, debug=False, delays=None, send_in_gap=False,
         w = SockWorld(gen, loop, net, log)
         if delays:
             w.msg_delays = list(delays)
+        if late_sub:
+            w.sock.unsubcribe_on_message_received(w._on_msg)
         await w.open()
         c = net.current()
         w2 = c2 = None
@@ -123,6 +129,8 @@ def deliver(gen, stream, cuts, gap, debug=False, delays=None, send_in_gap=False,
                     await asyncio.sleep(0)
             elif gap == "quiesce":
                 await quiesce(loop)
+                if late_sub and i == 0:
+                    w.sock.subscribe_on_message_received(w._on_msg)
             elif gap == "delay":
                 await asyncio.sleep(0.25)
             elif gap == "long_delay":
@@ -200,6 +208,11 @@ def cases(tier, seed):
                     for ch in _chunks([[i] for i in range(1, n)], 100):
                         yield {"k": "cuts", "gen": gen, "stream": sname, "gap": gap, "cuts": ch,
                                "duo": True}
+            if full:
+                # the first subscriber arrives while a frame is incomplete
+                for ch in _chunks([[i] for i in range(1, n)], 100):
+                    yield {"k": "cuts", "gen": gen, "stream": sname, "gap": "quiesce",
+                           "cuts": ch, "late_sub": True}
             if not full:
                 continue
             ones = [[i] for i in range(1, n)]
@@ -265,7 +278,18 @@ def run_case(case):
         out, closed, errs, status = deliver(gen, stream, cuts, case["gap"],
                                             case.get("debug", False), case.get("delays"),
                                             case.get("send_in_gap", False),
-                                            case.get("duo", False))
+                                            case.get("duo", False),
+                                            case.get("late_sub", False))
+        if case.get("late_sub") and out is not None and status == "ok":
+            # frames complete before the subscription had nobody to go to; every frame that is
+            # completed afterwards - the one cut in two included - is delivered
+            k = sum(1 for e0 in ends if e0 <= cuts[0])
+            if out == base[k:]:
+                out = base
+                obs["subscribed_while_a_frame_was_incomplete"] = obs.get(
+                    "subscribed_while_a_frame_was_incomplete", 0) + 1
+            else:
+                out = [("late-subscriber-view", len(out), k)] + list(out)
         if case.get("duo"):
             obs["second_client_receiving_in_the_gaps"] = obs.get(
                 "second_client_receiving_in_the_gaps", 0) + 1
